@@ -3,13 +3,16 @@
 # on patched copies of the repository; prints one line per seeded change: CAUGHT / MISSED
 LANES="${1:-4}"
 cd /verif
+# the lanes work from a frozen copy of /verif, so that the harness can be edited while the regression runs
+rm -rf /root/verif-snap; rsync -a --exclude harness/target --exclude replay --exclude .git /verif/ /root/verif-snap/
+export MUTBENCH_SRC=/root/verif-snap
 ls seeded | sort > /root/mutbench-all.list
 rm -f /root/mutbench-all.out
 lane() {
   L=$1
   awk -v n=$LANES -v l=$L 'NR % n == l' /root/mutbench-all.list | while read ID; do
-    P=seeded/$ID/patch.head.diff; [ -f $P ] || P=seeded/$ID/patch.diff
-    PROPS=$(python3 -c "import json; m=json.load(open('seeded/$ID/meta.json')); print(' '.join(m.get('caught_by') or [m['property']]))")
+    P=/root/verif-snap/seeded/$ID/patch.head.diff; [ -f $P ] || P=/root/verif-snap/seeded/$ID/patch.diff
+    PROPS=$(python3 -c "import json; m=json.load(open('/root/verif-snap/seeded/$ID/meta.json')); print(' '.join(m.get('caught_by') or [m['property']]))")
     OUT=$(MUTBENCH_DIR=/root/mutbench-lane$L scripts/mutbench.sh $P quick $PROPS 2>&1)
     if echo "$OUT" | grep -q "rc=1"; then echo "CAUGHT $ID [$(echo "$OUT" | grep 'rc=1' | awk '{print $2}' | tr '\n' ' ')]" >> /root/mutbench-all.out
     else echo "MISSED $ID :: $(echo "$OUT" | tr '\n' ' ' | cut -c1-300)" >> /root/mutbench-all.out; fi
